@@ -35,7 +35,8 @@ def run_world(aiu, w, prefix=(), expect=None):
            'prod_threads': set()}
 
     def live_workers():
-        return [t.name for t in sched.pool_threads if t.status != 'done']
+        return [t.name for t in sched.pool_threads if t.status != 'done'] + \
+            tx.idle_workers(sched, exclude=(aiu._CROSS_LOOP_POOL,))
 
     def gen():
         for i, v in enumerate(vals):
